@@ -18,7 +18,8 @@ static void init(void) {
                     "prediction; distinct = distinct (language, word, variant token)");
 }
 
-typedef struct cps { uint32_t c[96]; int n; } cps;
+typedef struct cps { uint32_t c[360]; int n; } cps;
+static bool g_skip_too_long;
 static void cps_str(const cps* t, char* out) { int k = 0; for (int i = 0; i < t->n; ++i) k += pv_utf8_encode(t->c[i], out + k); out[k] = 0; }
 
 /* decode phrase (words of d, token at position p replaced) and compare with the model */
@@ -26,7 +27,7 @@ static void try_token(pv_mlang* L, unsigned w, const cps* tok, bool nfc, const c
     int p = (int)(rot % 16);
     unsigned coin = (unsigned)(rot * 37 % 2048), d[16]; pv_mseed m;
     pv_gen_place(rng, p, w, coin, false, 7, d, &m);
-    char tokstr[400]; cps_str(tok, tokstr);
+    char tokstr[1500]; cps_str(tok, tokstr);
     char phrase[4096]; size_t k = 0;
     for (int i = 0; i < 16; ++i) {
         const char* t = (i == p) ? tokstr : L->word[d[i]];
@@ -34,6 +35,7 @@ static void try_token(pv_mlang* L, unsigned w, const cps* tok, bool nfc, const c
         if (i < 15) phrase[k++] = ' ';
     }
     phrase[k] = 0;
+    if (g_skip_too_long) { char* nf = pv_nfkd_alloc(phrase); bool fits = strlen(nf) < POLYSEED_STR_SIZE; free(nf); if (!fits) { PV_COUNT("marks.skipped(the phrase does not fit the buffer)", 1); return; } }
     char* in0 = nfc ? pv_nfc_alloc(phrase) : pv_exact_str(phrase);
     /* every third input lives in a larger buffer with stale non-ASCII bytes behind the terminator (what a reused input
      * field looks like): nothing behind the terminator may matter */
@@ -94,6 +96,43 @@ static void try_token(pv_mlang* L, unsigned w, const cps* tok, bool nfc, const c
     if (ok) PV_DISTINCT("nontrivial", pv_mix(pv_mix(pv_hash_str(L->key), w), pv_mix(pv_hash(tok->c, (size_t)tok->n * 4, 3), nfc)));
     if ((rot & 0x3fff) == 5) pv_sample(cls, "%s word '%s' token '%s' -> %s (model %s)", L->name_en, L->word[w], pv_esc(tokstr), pv_status_name(st), expect);
     free(in);
+}
+
+
+/* ---------------------------------------------------------------- many redundant accents on one token
+ * "the comparison ignores accents whether or not the user typed them": however many.  A word or an abbreviation of it carries
+ * 1 ... 200 extra combining marks (piled on one letter, spread over the letters, in front, at the end); Spanish and French must
+ * still recognise it, the four other abbreviating languages must not (a mark is a character the word does not have there). */
+static uint64_t n_marks(void) { return pv_scaled(3000, 200000); }
+static void run_marks(uint64_t idx, pv_rng* rng) {
+    static const char* const LN[] = { "Spanish", "French", "Spanish", "French", "Spanish", "French", "English", "Italian", "Czech", "Portuguese" };
+    pv_mlang* L = pv_lang_by_name(LN[idx % 10]);
+    if (!L || !L->lib) return;
+    static const int KS[] = { 1, 2, 3, 5, 8, 9, 10, 11, 12, 13, 14, 15, 16, 17, 20, 24, 27, 28, 29, 30, 31, 32, 33, 40, 50, 61, 62, 63, 64, 65, 100, 125, 126, 127, 128, 129, 150, 200 };
+    int K = KS[(idx / 10) % (sizeof KS / sizeof *KS)];
+    unsigned w = pv_randn(rng, PV_NWORDS);
+    const uint32_t* cp = L->cp[w]; int n = L->ncp[w];
+    /* the word as typed: all of it or a prefix of 3 ... n-1 letters (3 is too short), its own accents kept or dropped */
+    int letters = 0; for (int i = 0; i < n; ++i) if (!pv_is_accent(cp[i])) ++letters;
+    int keep = letters; uint32_t how = pv_randn(rng, 4);
+    if (how == 1 && letters > 4) keep = 4 + (int)pv_randn(rng, (uint32_t)(letters - 4)); else if (how == 2) keep = letters >= 4 ? 4 : letters; else if (how == 3 && idx % 7 == 0) keep = 3;
+    bool drop_own = pv_randn(rng, 2);
+    cps base; base.n = 0; int seen = 0;
+    for (int i = 0; i < n; ++i) { if (!pv_is_accent(cp[i])) { if (seen == keep) break; ++seen; } else if (drop_own) continue; base.c[base.n++] = cp[i]; }
+    /* where the extra marks go */
+    uint32_t place = pv_randn(rng, 4); int at = base.n ? (int)pv_randn(rng, (uint32_t)base.n) : 0;
+    cps t; t.n = 0;
+    if (place == 2) for (int q = 0; q < K; ++q) t.c[t.n++] = 0x300 + pv_randn(rng, 0x70);                 /* in front: dead keys typed first */
+    for (int i = 0; i < base.n; ++i) {
+        t.c[t.n++] = base.c[i];
+        if (place == 0 && i == at) for (int q = 0; q < K; ++q) t.c[t.n++] = 0x300 + pv_randn(rng, 0x70);   /* piled on one letter */
+        if (place == 1) for (int q = i; q < K; q += base.n) t.c[t.n++] = 0x300 + pv_randn(rng, 0x70);      /* spread over the letters */
+    }
+    if (place == 3) for (int q = 0; q < K; ++q) t.c[t.n++] = 0x300 + pv_randn(rng, 0x70);                 /* at the end */
+    char probe[1500]; cps_str(&t, probe);
+    if (strlen(probe) + 15 * 4 >= POLYSEED_STR_SIZE - 1) { PV_COUNT("marks.skipped(the phrase does not fit the buffer)", 1); return; }
+    pv_countf(1, "marks.run_of_%d", K); pv_countf(1, "marks.token_bytes.%s", strlen(probe) < 32 ? "under-32" : strlen(probe) < 64 ? "32-63" : strlen(probe) < 128 ? "64-127" : strlen(probe) < 256 ? "128-255" : "256-and-more");
+    g_skip_too_long = true; try_token(L, w, &t, pv_randn(rng, 3) == 0, "many-marks", rng, idx * 4 + 2); g_skip_too_long = false;      /* rot % 4 == 2: the automatic decoder sees it too */
 }
 
 /* ---------------------------------------------------------------- exhaustive per word */
@@ -268,6 +307,6 @@ static void run_long(uint64_t idx, pv_rng* rng) {
 
 static void fini(void) { pv_set_flag("exhaustive.per_word_variants(es,fr,en always; all languages in thorough)", true); }
 int main(int argc, char** argv) {
-    static const pv_section secs[] = { { "words", n_words, run_words }, { "mixed", n_mixed, run_mixed }, { "long", n_long, run_long } };
-    return pv_main(argc, argv, "C08", secs, 3, init, fini);
+    static const pv_section secs[] = { { "words", n_words, run_words }, { "mixed", n_mixed, run_mixed }, { "long", n_long, run_long }, { "marks", n_marks, run_marks } };
+    return pv_main(argc, argv, "C08", secs, 4, init, fini);
 }
